@@ -111,9 +111,44 @@ def installed_at(prog, steps):
     any field of that record)."""
     out = []
     steps = list(steps)
+    addr_defs = {}
+
+    def resolved(f, lhs, ev=None):
+        # `ev = &pool->done_ev; ev->handler = fn`: a local whose only definition is an address is that address
+        key = id(f)
+        if key not in addr_defs:
+            ds, bad = {}, set()
+            for e_ in f.events():
+                if e_['ev'] == 'store' and strip(e_['lhs']).get('k') == 'var':
+                    nm = strip(e_['lhs'])['name']
+                    r_ = strip(e_.get('rhs')) if 'rhs' in e_ else None
+                    if nm in ds or not (isinstance(r_, dict) and r_.get('k') == 'addr'):
+                        bad.add(nm)
+                    ds[nm] = e_.get('rhs')
+            addr_defs[key] = {k_: v_ for k_, v_ in ds.items() if k_ not in bad}
+        ds = dict(addr_defs[key])
+        # a local re-used for several addresses: the definition that reaches the store inside its own block
+        blk = f.blocks.get(ev.get('_b')) if ev is not None else None
+        if blk is not None and ev.get('_i', -1) < len(blk.events) and blk.events[ev['_i']] is ev:
+            for e_ in blk.events[:ev['_i']]:
+                if e_['ev'] == 'store' and strip(e_['lhs']).get('k') == 'var':
+                    nm = strip(e_['lhs'])['name']
+                    r_ = strip(e_.get('rhs')) if 'rhs' in e_ else None
+                    if isinstance(r_, dict) and r_.get('k') == 'addr':
+                        ds[nm] = e_['rhs']
+                    else:
+                        ds.pop(nm, None)
+        if not ds:
+            return lhs
+        from ..core import subst, simplify
+        def r(nd):
+            if nd.get('k') == 'load' and isinstance(nd.get('e'), dict) and nd['e'].get('k') == 'var' and nd['e']['name'] in ds:
+                return ds[nd['e']['name']]
+            return None
+        return simplify(subst(lhs, r))
     for f, e in event_pool(prog):
         if e['ev'] == 'store' and 'rhs' in e:
-            got = list(lvalue_steps(e['lhs']))[:len(steps)]
+            got = list(lvalue_steps(resolved(f, e['lhs'], e)))[:len(steps)]
             if len(got) == len(steps) and all(g == s_ or (s_[1] is None and g[0] == s_[0]) for g, s_ in zip(got, steps)):
                 out.append(func_node(prog, f, e['rhs']))
     return _uniq(out)
